@@ -137,6 +137,14 @@ Theorem guarded_operation_is_atomic : forall (S X : Type) (o : gop S X) (s s' : 
 Proof. exact run_gop_atomic. Qed.
 Print Assumptions guarded_operation_is_atomic.
 
+(* static tie, re-extracted from src/*.c on every run (tools/genx_err.py): in every function that checks its
+   arguments (bounds, NULL, allocation class, method, magic number under the CELLO_*_CHECK switches, or a type
+   cast) no mutating statement precedes the last such check — the C functions have the guarded shape above *)
+Theorem argument_checks_precede_mutation_in_the_source :
+  forallb (fun r => snd r) err_guard_order = true /\ 30 <= List.length err_guard_order.
+Proof. vm_compute. split; [reflexivity|]. repeat constructor. Qed.
+Print Assumptions argument_checks_precede_mutation_in_the_source.
+
 (* the contract table of the failed-operation matrix names only the exceptions the property documents *)
 Definition documented_exn (e : cexn) : bool :=
   match e with
